@@ -68,9 +68,11 @@ class NestGen:
             inner = self.wrap(ctxs, exit_, depth + 1, True)
             self.fns[name] = Fn([], Block([Let("lv", I(10 + depth)), Print(S(tag + "-in"))] + inner +
                                           [Print(S(tag + "-lv"), V("lv"))], I(7)), ret="int")
-            return [Print(S(tag + "-ret"), Call(name)), Print(S(tag + "-after"))]
-        inner = [Print(S(tag + "-in"))] + self.wrap(ctxs, exit_, depth + 1, in_fn) + [Print(S(tag + "-end"))]
-        after = [Print(S(tag + "-after"))]
+            return [Print(S(tag + "-ret"), Call(name)), Print(S(tag + "-after"), V("lv"))]
+        # every construct that opens a scope declares a local of the same name `lv`: once the construct has been left -
+        # whichever way - the name means the enclosing level's variable again (a scope left behind would answer instead)
+        inner = [Let("lv", I(10 + depth)), Print(S(tag + "-in"))] + self.wrap(ctxs, exit_, depth + 1, in_fn) + [Print(S(tag + "-end"), V("lv"))]
+        after = [Print(S(tag + "-after"), V("lv"))]
         if c == "block":
             return [Expr(Block(inner))] + after
         if c == "if":
@@ -100,7 +102,7 @@ class NestGen:
 
     def program(self, ctxs, exit_, ending="end"):
         self.fns = {}
-        body = [Let("keep", I(41)), Print(S("start"))]
+        body = [Let("keep", I(41)), Let("lv", I(1)), Print(S("start"))]
         body += self.wrap(ctxs, exit_, 0, False)
         # second use of locals, handlers, loops and the operand stack
         e2 = self.fresh("e")
@@ -108,7 +110,7 @@ class NestGen:
         body += [Print(S("keep"), Bin("+", V("keep"), V("one"))),
                  Expr(Try(Block([Expr(Call("throw", S("again")))]), e2, Block([Print(S("c2"), Mem(V(e2), "message"))]))),
                  For(q, Range(I(0), I(2)), Block([Print(S("q"), V(q))])),
-                 Print(S("end"))]
+                 Print(S("end"), V("lv"))]
         if ending == "throw":
             # a handler left installed by the nest would wrongly catch this one
             body += [Expr(Call("throw", S("final")))]
